@@ -773,10 +773,10 @@ theorem convertWith_trunc (label : SwcText.Str) (b : Branch) (T : List Tok) (f :
       simp only [ok_bind, parseTop_nil]
       exact ⟨_, rfl⟩
 
-/-- **a document that ends prematurely is rejected** (partial: stated for the token stream cut anywhere
-inside the tree's points; the general "every accepted stream is bracket-balanced" lemma is the missing
-piece for cuts inside the header) — every proper prefix that still contains the header -/
-theorem truncation_rejected_partial (label : SwcText.Str) (b : Branch) (k : Nat)
+/-- **a document that ends prematurely is rejected**, part 1: the token stream cut anywhere inside the tree's
+points — every proper prefix that still contains the header (cuts inside the header: `header_truncation_rejected`;
+both together: `truncation_rejected`) -/
+theorem truncation_rejected_body (label : SwcText.Str) (b : Branch) (k : Nat)
     (hl : upper label = "AXON".toList ∨ upper label = "DENDRITE".toList) (hb : NonEmpty b)
     (hk : k < (branchToks b ++ [Tok.rp]).length) :
     ∃ er, convertTokens ([.lp, .lp, .literal label, .rp] ++ (branchToks b ++ [Tok.rp]).take k) = .error er := by
@@ -792,6 +792,47 @@ theorem truncation_rejected_partial (label : SwcText.Str) (b : Branch) (k : Nat)
         omega
   rw [convertTokens_eq _ (by simp)]
   exact convertWith_trunc label b _ _ hl hb hT
+
+/-- **a document cut inside its header is rejected**: every proper prefix of `( ( label )` — together with
+`truncation_rejected_body` every proper prefix of the token stream of a well-formed document is rejected -/
+theorem header_truncation_rejected (label : SwcText.Str) (k : Nat) (hk : k < 4)
+    (hl : upper label = "AXON".toList ∨ upper label = "DENDRITE".toList) :
+    ∃ er, convertTokens (([.lp, .lp, .literal label, .rp] : List Tok).take k) = .error er := by
+  have hcases : k = 0 ∨ k = 1 ∨ k = 2 ∨ k = 3 := by omega
+  have hb : (upper label = "AXON".toList || upper label = "DENDRITE".toList) = true := by
+    rcases hl with h | h <;> simp [h]
+  rcases hcases with rfl | rfl | rfl | rfl
+  · exact ⟨.eof, rfl⟩
+  · exact ⟨.eof, rfl⟩
+  · exact ⟨.eof, rfl⟩
+  · refine ⟨.eof, ?_⟩
+    show convertTokens [.lp, .lp, .literal label] = _
+    unfold convertTokens
+    simp only [skipComments, expectLp, adv, List.length_cons, List.length_nil]
+    show (parseTop 5 [.lp, .literal label] [] >>= _) = _
+    rw [parseTop]
+    simp only [adv, ok_bind, hb, if_true, expectRp]
+    rfl
+
+/-- **every proper prefix of the token stream of a well-formed single-tree document is rejected** -/
+theorem truncation_rejected (label : SwcText.Str) (b : Branch) (k : Nat)
+    (hl : upper label = "AXON".toList ∨ upper label = "DENDRITE".toList) (hb : NonEmpty b)
+    (hk : k < ([Tok.lp, Tok.lp, Tok.literal label, Tok.rp] ++ (branchToks b ++ [Tok.rp])).length) :
+    ∃ er, convertTokens (([Tok.lp, Tok.lp, Tok.literal label, Tok.rp] ++ (branchToks b ++ [Tok.rp])).take k) = .error er := by
+  by_cases h4 : k < 4
+  · have : ([Tok.lp, .lp, .literal label, .rp] ++ (branchToks b ++ [Tok.rp])).take k =
+        ([.lp, .lp, .literal label, .rp] : List Tok).take k := by
+      rw [List.take_append_of_le_length (by simp; omega)]
+    rw [this]
+    exact header_truncation_rejected label k h4 hl
+  · have : ([Tok.lp, .lp, .literal label, .rp] ++ (branchToks b ++ [Tok.rp])).take k =
+        [.lp, .lp, .literal label, .rp] ++ (branchToks b ++ [Tok.rp]).take (k - 4) := by
+      rw [List.take_append]
+      simp [List.take_of_length_le (show ([Tok.lp, .lp, .literal label, .rp] : List Tok).length ≤ k by simp; omega)]
+    rw [this]
+    apply truncation_rejected_body label b (k - 4) hl hb
+    simp at hk ⊢
+    omega
 
 /-! ## the lexer -/
 
